@@ -1,0 +1,5 @@
+//go:build !verif
+
+package res
+
+func vhook(point string, args ...interface{}) {}
